@@ -1,6 +1,6 @@
 use std::fs;
 use std::io::{self, Read};
-use std::path::Path;
+use std::path::{Path, PathBuf};
 
 use super::{
     central_header_to_zip_file_inner, read_zipfile_from_stream, spec, ZipError, ZipFile,
@@ -73,7 +73,8 @@ impl<R: Read> ZipStreamReader<R> {
                     .enclosed_name()
                     .ok_or(ZipError::InvalidArchive("Invalid file path"))?;
 
-                let outpath = self.0.join(filepath);
+                // `components()` drops `.` components: `create_dir_all("a/.")` fails when `a` is missing
+                let outpath: PathBuf = self.0.join(filepath).components().collect();
 
                 if file.name().ends_with('/') {
                     fs::create_dir_all(&outpath)?;
